@@ -1,0 +1,68 @@
+//go:build verif
+
+package blake2b
+
+import "sync"
+
+// Verification hooks (build tag "verif" only): force each hashBlocks
+// dispatch variant in turn.  Nothing here is compiled without the tag.
+
+var verifCPU struct {
+	once            sync.Once
+	avx2, avx, sse4 bool
+}
+
+func verifCapture() {
+	verifCPU.once.Do(func() {
+		verifCPU.avx2, verifCPU.avx, verifCPU.sse4 = useAVX2, useAVX, useSSE4
+	})
+}
+
+// VerifVariants lists the hashBlocks implementations this build and CPU can
+// run ("avx2", "avx", "sse4", "generic").  In a purego / non-amd64 build
+// the dispatch flags are never set and only "generic" is listed.
+func VerifVariants() []string {
+	verifCapture()
+	var v []string
+	if verifCPU.avx2 {
+		v = append(v, "avx2")
+	}
+	if verifCPU.avx {
+		v = append(v, "avx")
+	}
+	if verifCPU.sse4 {
+		v = append(v, "sse4")
+	}
+	return append(v, "generic")
+}
+
+// VerifSetSIMD sets the dispatch flags and returns the previous values.
+func VerifSetSIMD(avx2, avx, sse4 bool) (oldAVX2, oldAVX, oldSSE4 bool) {
+	verifCapture()
+	oldAVX2, oldAVX, oldSSE4 = useAVX2, useAVX, useSSE4
+	useAVX2, useAVX, useSSE4 = avx2, avx, sse4
+	return
+}
+
+// VerifSelect forces the named variant (one of VerifVariants) and returns a
+// function restoring the previous flags.  ok is false for a variant that is
+// not available here (flags are left unchanged).
+func VerifSelect(variant string) (restore func(), ok bool) {
+	verifCapture()
+	var a2, a, s bool
+	switch variant {
+	case "avx2":
+		a2, ok = true, verifCPU.avx2
+	case "avx":
+		a, ok = true, verifCPU.avx
+	case "sse4":
+		s, ok = true, verifCPU.sse4
+	case "generic":
+		ok = true
+	}
+	if !ok {
+		return func() {}, false
+	}
+	o2, o1, o0 := VerifSetSIMD(a2, a, s)
+	return func() { VerifSetSIMD(o2, o1, o0) }, true
+}
